@@ -244,11 +244,10 @@ def order_correspondence(ck, n):
 # ------------------------------------------------------------------------------------------------
 # classification of Spec rejections (never decides pass/fail: only maps a rejection to a known-finding key)
 
-POOLS = {1, 17}
-ARG_MAX = 56
 
 
 CONVS = {3, 4, 67}
+WRITER_READER_MODULES = {"tflite_writer", "tflite_mapping", "tflite_reader", "reader_util"}
 
 
 def classify(kind, detail, src, opts):
@@ -265,29 +264,11 @@ def classify(kind, detail, src, opts):
                         return "quantisation@force-symmetric-int-weights-before-placement"
     m = re.match(r"operator (\d+) \(builtin (\d+)\)", detail)
     builtin = int(m.group(2)) if m else None
-    if kind == "version" and builtin is not None:
-        versions = {c["version"] for c in src["operator_codes"] if c["builtin"] == builtin}
-        if len(versions) > 1:
-            return "version@operator_code_map-keyed-by-op-type"
     if kind in ("interface-input-count", "interface-output-count"):
         lst = sg["inputs"] if "input" in kind else sg["outputs"]
         mm = re.match(r"source (\d+) output (\d+)", detail)
         if mm and len(lst) == int(mm.group(1)) and len(dict.fromkeys(lst)) == int(mm.group(2)):
             return "interface-count@duplicate-subgraph-io-entries-removed"
-    if kind == "options" and builtin == 67:
-        mm = re.search(r"type 49 \[(.*)\] vs type 49 \[(.*)\]", detail)
-        if mm and re.sub(r",? ?\(3, [0-9a-f]+\)", "", mm.group(1)) == mm.group(2):
-            return "options@transpose-conv-fused-activation-not-serialised"
-    if kind == "options" and builtin in POOLS:
-        # source pooling operators whose kernel == stride == feature map (fixup_pool_strides runs before placement)
-        for op in sg["operators"]:
-            code = src["operator_codes"][op["opcode_index"]]
-            if code["builtin"] != builtin or not op["options_raw"]:
-                continue
-            f = {slot: int.from_bytes(raw[:4], "little") for slot, raw in op["options_raw"]}
-            ifm = sg["tensors"][op["inputs"][0]]["shape"]
-            if len(ifm) == 4 and f.get(1, 0) == f.get(3, 0) == ifm[2] and f.get(2, 0) == f.get(4, 0) == ifm[1]:
-                return "options@fixup_pool_strides-before-placement"
     if kind == "interface-output-name":
         mm = re.search(r"position \d+: ([0-9a-f]*) vs ([0-9a-f]*)", detail)
         if mm:
@@ -298,16 +279,6 @@ def classify(kind, detail, src, opts):
                     ins = [sg["tensors"][i] for i in op["inputs"] if i >= 0 and not src["buffers"][sg["tensors"][i]["buffer"]]]
                     if r["name"] == a and len(ins) == 1 and ins[0]["name"] == b and ins[0]["shape"] == r["shape"]:
                         return "interface-output-name@identity-operator-bypassed-at-subgraph-output"
-    if kind in ("interface-output-shape", "operand-shape", "result-shape"):
-        mm = re.search(r"([0-9a-f]*): \[([-0-9, ]*)\] vs \[([-0-9, ]*)\]", detail)
-        if mm:
-            name = bytes.fromhex(mm.group(1)).decode("utf-8", "replace")
-            a = [int(x) for x in mm.group(2).split(",") if x.strip()]
-            b = [int(x) for x in mm.group(3).split(",") if x.strip()]
-            for op in sg["operators"]:
-                if src["operator_codes"][op["opcode_index"]]["builtin"] == ARG_MAX and \
-                        any(sg["tensors"][t]["name"] == name for t in op["outputs"]) and b == a + [1]:
-                    return "shape@argmax-ofm-shape-extended-in-place"
     return None
 
 
@@ -371,7 +342,12 @@ def main():
         ck.count("profile_" + o["profile"])
         if o["status"] != "ok" or "line" not in o:
             if o["status"] == "internal-exception":
-                ck.count("crash_" + o["exc_site"])        # C13's subject, not C11's
+                ck.count("crash_" + o["exc_site"])        # C13's subject, not C11's ...
+                site_mod = o["exc_site"].split("@")[-1].split(".")[0]
+                if site_mod in WRITER_READER_MODULES:
+                    # ... unless the reader / writer / option serialisers themselves die: then no output is written at all
+                    ck.violation(f"the TFLite reader/writer died: {o['exc_site']} {o['exc'][:160]} (network {o['idx']} {o['profile']} "
+                                 f"{o['desc']['ops']} {o['opts']})", dict(replay_of(o), exception=o["exc"], site=o["exc_site"]))
             continue
         for f in o["features"]:
             ck.count("feature_" + f)
